@@ -37,6 +37,7 @@ def default_models():
     reg('enum.auto', lambda I: _Auto())
     reg('dataclasses.field', lambda I, **k: FieldSpec(**k))
     reg('pydantic.Field', lambda I, *a, **k: FieldSpec(*(a[:1]), **k))
+    reg('pydantic.PrivateAttr', lambda I, *a, **k: FieldSpec(*(a[:1]), **k))
     reg('typing.cast', lambda I, t, v: v)
     reg('typing.TypeVar', lambda I, *a, **k: None)
     reg('pydantic.ConfigDict', lambda I, **k: dict(k))
@@ -160,6 +161,12 @@ def default_models():
     reg('numpy.degrees', lift(_rad2deg))
     reg('math.degrees', lift(_rad2deg))
     reg('numpy.abs', lift(lambda I, x: I.builtins['abs'].fn(x)))
+    def _sign(I, x):
+        if is_sym(x):
+            xr = to_real(x)
+            return z3.If(xr > 0, z3.RealVal(1), z3.If(xr < 0, z3.RealVal(-1), z3.RealVal(0)))
+        return Fraction((x > 0) - (x < 0))
+    reg('numpy.sign', lift(_sign))
     reg('numpy.absolute', lift(lambda I, x: I.builtins['abs'].fn(x)))
     reg('math.fabs', lift(lambda I, x: I.builtins['abs'].fn(x)))
     reg('numpy.float64', lambda I, x=0: I.builtins['float'].fn(x))
